@@ -701,29 +701,64 @@ func genConstsFacts() map[string]any {
 	if read == nil {
 		unsup("auditd.go: Read not found")
 	} else {
+		// local variables are followed by what they are bound to, whatever they are called:
+		// tickers = variables assigned time.NewTicker(X); callVars = variables assigned a call expression
+		rel := "processors/auditd/auditd.go"
+		tickers := map[string]string{}
+		callVars := map[string]string{}
+		trackerVar := ""
 		ast.Inspect(read.Body, func(n ast.Node) bool {
-			switch x := n.(type) {
-			case *ast.AssignStmt:
-				if len(x.Lhs) == 1 && len(x.Rhs) == 1 {
-					l := selName(x.Lhs[0])
-					if c, ok := x.Rhs[0].(*ast.CallExpr); ok {
-						if l == "staleDataTicker" && selName(c.Fun) == "time.NewTicker" && len(c.Args) == 1 {
-							tickerArg = src("processors/auditd/auditd.go", fset, c.Args[0])
-						}
-						if l == "aMinuteAgo" {
-							cutoffExpr = src("processors/auditd/auditd.go", fset, c)
+			if x, ok := n.(*ast.AssignStmt); ok && len(x.Lhs) == 1 && len(x.Rhs) == 1 {
+				l := selName(x.Lhs[0])
+				if c, ok := x.Rhs[0].(*ast.CallExpr); ok {
+					if selName(c.Fun) == "time.NewTicker" && len(c.Args) == 1 {
+						tickers[l] = src(rel, fset, c.Args[0])
+					}
+					if selName(c.Fun) == "sessiontracker.NewSessionTracker" {
+						trackerVar = l
+					}
+					callVars[l] = src(rel, fset, c)
+				}
+			}
+			return true
+		})
+		// the select arm that performs the clean-up tells which ticker drives it
+		ast.Inspect(read.Body, func(n ast.Node) bool {
+			cc, ok := n.(*ast.CommClause)
+			if !ok || cc.Comm == nil {
+				return true
+			}
+			recvFrom := ""
+			if es, ok := cc.Comm.(*ast.ExprStmt); ok {
+				if u, ok := es.X.(*ast.UnaryExpr); ok && u.Op == token.ARROW {
+					recvFrom = selName(u.X)
+				}
+			}
+			hasCleanup := false
+			for _, st := range cc.Body {
+				ast.Inspect(st, func(m ast.Node) bool {
+					if c, ok := m.(*ast.CallExpr); ok {
+						fn := selName(c.Fun)
+						if trackerVar != "" && (fn == trackerVar+".DeleteUsersWithoutLoginsBefore" || fn == trackerVar+".DeleteRemoteUserLoginsBefore") {
+							hasCleanup = true
+							a := ""
+							if len(c.Args) == 1 {
+								a = src(rel, fset, c.Args[0])
+								if e, ok := callVars[a]; ok { // a local variable: what it was computed from
+									a = e
+								}
+							}
+							cleanupArgs = append(cleanupArgs, strings.TrimPrefix(fn, trackerVar+".")+"("+a+")")
+							if cutoffExpr == "" {
+								cutoffExpr = a
+							}
 						}
 					}
-				}
-			case *ast.CallExpr:
-				fn := selName(x.Fun)
-				if fn == "tracker.DeleteUsersWithoutLoginsBefore" || fn == "tracker.DeleteRemoteUserLoginsBefore" {
-					a := ""
-					if len(x.Args) == 1 {
-						a = src("processors/auditd/auditd.go", fset, x.Args[0])
-					}
-					cleanupArgs = append(cleanupArgs, strings.TrimPrefix(fn, "tracker.")+"("+a+")")
-				}
+					return true
+				})
+			}
+			if hasCleanup && strings.HasSuffix(recvFrom, ".C") {
+				tickerArg = tickers[strings.TrimSuffix(recvFrom, ".C")]
 			}
 			return true
 		})
@@ -744,8 +779,8 @@ func genConstsFacts() map[string]any {
 		unsup("auditd.go: cut-off expression not recognised (%q)", cutoffExpr)
 	}
 	sort.Strings(cleanupArgs)
-	wantCleanup := []string{"DeleteRemoteUserLoginsBefore(aMinuteAgo)", "DeleteUsersWithoutLoginsBefore(aMinuteAgo)"}
-	cleanupOK := strings.Join(cleanupArgs, ";") == strings.Join(wantCleanup, ";")
+	wantCleanup := []string{"DeleteRemoteUserLoginsBefore(" + cutoffExpr + ")", "DeleteUsersWithoutLoginsBefore(" + cutoffExpr + ")"}
+	cleanupOK := cutoffExpr != "" && strings.Join(cleanupArgs, ";") == strings.Join(wantCleanup, ";")
 	if !cleanupOK {
 		unsup("auditd.go: cleanup calls not recognised (%v)", cleanupArgs)
 	}
@@ -859,6 +894,26 @@ func genConstsFacts() map[string]any {
 	if read != nil {
 		derived := ""
 		cancelName := ""
+		// the WaitGroup (`var X sync.WaitGroup`), the channel the parser's result is sent to, the channel
+		// handed to the callback as its error channel — by role, not by name
+		wgName, parseDoneVar, reassErrVar := "", "", ""
+		ast.Inspect(read.Body, func(n ast.Node) bool {
+			switch x := n.(type) {
+			case *ast.ValueSpec:
+				if x.Type != nil && selName(x.Type) == "sync.WaitGroup" && len(x.Names) == 1 {
+					wgName = x.Names[0].Name
+				}
+			case *ast.SendStmt:
+				if c, ok := x.Value.(*ast.CallExpr); ok && selName(c.Fun) == "parseAuditLogs" {
+					parseDoneVar = selName(x.Chan)
+				}
+			case *ast.KeyValueExpr:
+				if selName(x.Key) == "errors" {
+					reassErrVar = selName(x.Value)
+				}
+			}
+			return true
+		})
 		ast.Inspect(read.Body, func(n ast.Node) bool {
 			switch x := n.(type) {
 			case *ast.AssignStmt:
@@ -877,9 +932,9 @@ func genConstsFacts() map[string]any {
 								}
 							}
 							switch selName(x.Lhs[0]) {
-							case "parseAuditLogsDone":
+							case parseDoneVar:
 								parseDoneCap = capv
-							case "reassemblerErrors":
+							case reassErrVar:
 								reassErrCap = capv
 							}
 						}
@@ -893,7 +948,7 @@ func genConstsFacts() map[string]any {
 			case *ast.GoStmt:
 				readGo++
 				body := src("processors/auditd/auditd.go", fset, x.Call)
-				if strings.Contains(body, "defer workers.Done()") {
+				if wgName != "" && strings.Contains(body, "defer "+wgName+".Done()") {
 					readGoJoined++
 				}
 				if derived != "" && strings.Contains(body, "("+derived+",") && !strings.Contains(body, "(ctx,") {
@@ -902,7 +957,10 @@ func genConstsFacts() map[string]any {
 			case *ast.DeferStmt:
 				body := src("processors/auditd/auditd.go", fset, x.Call)
 				ci := strings.Index(body, cancelName+"()")
-				wi := strings.Index(body, "workers.Wait()")
+				wi := -1
+				if wgName != "" {
+					wi = strings.Index(body, wgName+".Wait()")
+				}
 				if cancelName != "" && ci >= 0 && wi > ci {
 					readDefersWait = true
 				}
